@@ -81,6 +81,7 @@ const RESP_DAMAGE: &[FK] = &[
     FK::CtParams,
     FK::StatusFlip,
     FK::UnknownField,
+    FK::TypeConfusion,
     FK::ByteFlip,
     FK::Pretty,
     FK::TrailingWs,
@@ -148,10 +149,12 @@ pub fn setup_with(ctx: &Ctx, is_async: bool, knobs: GenKnobs, macro_server: bool
     let (sync_eps, async_eps) = if is_async {
         let mut v = if macro_server { crate::mirror::endpoints_async(&handler, &rt) } else { Vec::new() };
         v.extend(glue_gen::endpoints_async(&handler, &rt));
+        v.extend(crate::mirror::macro_only_endpoints_async(&handler, &rt));
         (Vec::new(), v)
     } else {
         let mut v = if macro_server { crate::mirror::endpoints_blocking(&handler, &rt) } else { Vec::new() };
         v.extend(glue_gen::endpoints_blocking(&handler, &rt));
+        v.extend(crate::mirror::macro_only_endpoints_blocking(&handler, &rt));
         (v, Vec::new())
     };
     // server list position -> IR endpoint index, verified by name
@@ -349,8 +352,12 @@ impl Engine for WireEngine {
                 }
                 _ => {}
             }
-            let args = ctx.with_tape(|t| glue_gen::gen_args(ep, t, &st.knobs));
-            let ret = ctx.with_tape(|t| glue_gen::gen_ret(ep, t, &st.knobs));
+            if crate::mirror::macro_only(ep) {
+                client_kind = crate::mirror::ClientKind::Macro;
+                ctx.count("probe.macro_only_endpoint_call");
+            }
+            let args = ctx.with_tape(|t| crate::mirror::gen_args(ep, t, &st.knobs));
+            let ret = ctx.with_tape(|t| crate::mirror::gen_ret(ep, t, &st.knobs));
             let mut plan = self.plan_for(ctx, &st.knobs, faults_on, &run_enabled);
             if let Some(b) = ir().eps[ep].body_arg() {
                 if !ir().is_binary(&b.ty) {
